@@ -607,6 +607,64 @@ fn codec_extra_inner() -> Value {
             rt_fail.push(format!("PMsg #{n}"));
         }
     }
+    // factory jobs: key + options travel as metadata next to the inner message's own encoding. Keys whose encoding is
+    // empty (unit, empty string, empty vector) make the metadata exactly as long as the options alone.
+    macro_rules! jobs {
+        ($($kt:ty => [$($k:expr),*]);* $(;)?) => {$($(
+            for ttl in [None, Some(std::time::Duration::from_nanos(1)), Some(std::time::Duration::from_millis(1500))] {
+                for viafm in [false, true] {
+                    rts += 1;
+                    let key: $kt = $k;
+                    let job = ractor::factory::Job::<$kt, HMsg> { key: key.clone(), msg: HMsg(77), options: ractor::factory::JobOptions::new(ttl), accepted: None };
+                    let sub = job.options.submit_time();
+                    let back = std::panic::catch_unwind(std::panic::AssertUnwindSafe(|| {
+                        if viafm {
+                            ractor::factory::FactoryMessage::Dispatch(job).serialize().ok()
+                                .and_then(|s| ractor::factory::FactoryMessage::<$kt, HMsg>::deserialize(s).ok())
+                                .and_then(|m| if let ractor::factory::FactoryMessage::Dispatch(j) = m { Some(j) } else { None })
+                        } else {
+                            job.serialize().ok().and_then(|s| ractor::factory::Job::<$kt, HMsg>::deserialize(s).ok())
+                        }
+                    }));
+                    let good = match back {
+                        Ok(Some(j)) => {
+                            let dt = |a: std::time::SystemTime, b: std::time::SystemTime| a.duration_since(b).unwrap_or_else(|e| e.duration()) < std::time::Duration::from_micros(1);
+                            j.key == key && j.msg.0 == 77 && j.options.ttl() == ttl && dt(j.options.submit_time(), sub) && j.accepted.is_none()
+                        }
+                        _ => false,
+                    };
+                    if !good {
+                        rt_fail.push(format!("Job<{}> key={:?} ttl={:?} via_factory_message={}", stringify!($kt), key, ttl, viafm));
+                    }
+                }
+            }
+        )*)*};
+    }
+    jobs!(() => [()]; String => [String::new(), "k".to_string(), "h\u{e9}llo".to_string()]; u64 => [0u64, u64::MAX];
+          Vec<u8> => [Vec::<u8>::new(), vec![0u8], vec![1u8; 17]]; Vec<u32> => [Vec::<u32>::new(), vec![5u32, 6]]; bool => [true]);
+    // bad job metadata: absent, or shorter than the options block, must be an error (never a panic); and a call reply is
+    // never a job
+    for meta in [None, Some(vec![]), Some(vec![0u8; 1]), Some(vec![0xffu8; 15])] {
+        rts += 1;
+        let m = SerializedMessage::Cast { variant: "ok".into(), args: 77u32.to_be_bytes().to_vec(), metadata: meta.clone() };
+        match std::panic::catch_unwind(std::panic::AssertUnwindSafe(|| ractor::factory::Job::<u64, HMsg>::deserialize(m).is_err())) {
+            Ok(true) => {}
+            Ok(false) => rt_fail.push(format!("Job<u64> accepted metadata {:?}", meta)),
+            Err(_) => rt_fail.push(format!("Job<u64> decoder panicked on metadata {:?}", meta)),
+        }
+    }
+    for keylen in [0usize, 3, 7, 9] {
+        // metadata with an options block and a key of the wrong width: u64 keys take what is there (documented: the numeric
+        // conversions read a fixed width) -- it must not panic the decoder when the width is short
+        rts += 1;
+        let m = SerializedMessage::Cast { variant: "ok".into(), args: 77u32.to_be_bytes().to_vec(), metadata: Some(vec![0u8; 16 + keylen]) };
+        let _ = keylen;
+        let r = std::panic::catch_unwind(std::panic::AssertUnwindSafe(|| ractor::factory::Job::<String, HMsg>::deserialize(m).map(|j| j.key.len())));
+        match r {
+            Ok(Ok(n)) if n == keylen => {}
+            other => rt_fail.push(format!("Job<String> metadata with {keylen}-byte key: {:?}", other.map(|x| x.ok()).ok())),
+        }
+    }
     json!({"family": "codec-extra", "decoder_inputs": inputs.len() * variants.len() * 2, "decoded_ok": ok, "decoded_err": err, "decoder_panics": panics, "panicked_inputs": panicked,
            "round_trips": rts, "round_trip_failures": rt_fail})
 }
